@@ -529,6 +529,8 @@ def run(ctx):
         i.rule = i.rule.replace("C10.", "C11.")
     ctx.floors = {k.replace("C10.", "C11."): v for k, v in ctx.floors.items()}
     ctx.analysed["engine"] = tu.meta
+    from .. import argorder
+    argorder.rule(ctx, "C11.ARGS", py_modules=(), cx=True)
     ctx.assume("int overflow of extent products for huge systems and IEEE division by zero are not decided")
     ctx.assume("the engine is driven through LibRDEngine (lifecycle-respecting call sequences); buffers handed to the "
                "getter exports are sized from engineexport_get_nsamples fetched immediately before")
